@@ -151,7 +151,9 @@ func c12Benign(r *sim.Request, kind string, isChild bool, isParent bool) bool {
 	case "409":
 		return (isChild && (r.Verb == "create" || r.Verb == "update")) || (isParent && r.Verb == "update")
 	case "410":
-		return isChild && (r.Verb == "get" || r.Verb == "update") // release treats Gone like NotFound
+		// only the RELEASE of a child (g in the mixed scenario) treats Gone like NotFound; an adoption that gets a
+		// 410 has failed and must be reported
+		return isChild && (r.Verb == "get" || r.Verb == "update") && r.Name == "g"
 	}
 	return false
 }
@@ -250,7 +252,7 @@ func TestVerifC12(t *testing.T) {
 		}
 		run := func(dev c12Dev, plan func(x *c12World) func(q *sim.Request) *sim.Fault, hook world.HookFunc, expectErr int, expect429 time.Duration) {
 			idx++
-			if !mc.Mine(idx) {
+			if !mc.MineKey(fmt.Sprintf("%+v", dev)) {
 				return
 			}
 			r.Case(dev, fmt.Sprint(idx), func() []mc.Finding {
